@@ -275,6 +275,53 @@ theorem gal_runPlan_applyGalois (kl : KeyLevel) (l : Level) (scheme : Scheme) (c
   | false =>
     simp only [Bool.false_eq_true, if_false, runGaloisPlan, gal_apC, hkey]
 
+
+/-! ### switch_key_inplace_internal: refusals of the prologue, key-level indices of the accumulation loop -/
+/-- the prologue of `switch_key_inplace_internal` (valid ciphertext, key switching available, keys of the key level): index range and the
+    scheme / representation gate — the gate of the model's `switchKey` (BFV: coefficient form; CKKS, BGV: NTT form) -/
+theorem gal_switch_prologue_eq (scheme : Scheme) (ntt : Bool) (index nkeys : Nat) :
+    GenGal.switch_key_prologue scheme ntt true true true index nkeys =
+      if index ≥ nkeys then .error .refused
+      else (match scheme with
+            | .bfv => if ntt then Except.error Err.refused else pure ()
+            | _ => if !ntt then Except.error Err.refused else pure ()) >>= fun _ => .ok [] := by
+  unfold GenGal.switch_key_prologue
+  by_cases h : index ≥ nkeys
+  · simp only [not_true_eq_false, if_false, h, if_true]
+  · simp only [not_true_eq_false, if_false, h]
+    cases scheme <;> cases ntt <;> rfl
+
+theorem gal_switch_prologue_refuses (scheme : Scheme) (ntt valid usingKs keysOk : Bool) (index nkeys : Nat)
+    (h : valid = false ∨ usingKs = false ∨ keysOk = false) :
+    GenGal.switch_key_prologue scheme ntt valid usingKs keysOk index nkeys = .error .refused := by
+  unfold GenGal.switch_key_prologue
+  rcases h with h | h | h
+  · subst h; rfl
+  · subst h; cases valid <;> rfl
+  · subst h; cases valid <;> cases usingKs <;> rfl
+
+theorem gal_map_fold (g : Nat → Nat) (f : List Nat → Nat → R (List Nat)) (hf : ∀ st v, f st v = .ok (st ++ [g v])) :
+    ∀ (l acc : List Nat), l.foldlM f acc = .ok (acc ++ l.map g) := by
+  intro l
+  induction l with
+  | nil => intro acc; simp [List.foldlM_nil, gy_pure_eq]
+  | cons d tl ih => intro acc; rw [List.foldlM_cons, hf, gy_ok_bind, ih]; simp
+
+/-- the key-level modulus / NTT-table index used for RNS index i of the accumulation loop, i = 0 .. dsz: i itself for the level's own primes,
+    `ksz − 1` (the special prime, LAST of the key level) for i = dsz — whatever the level — = `keyIndex` of the model's `ksAccumulate` -/
+theorem gal_switch_indices_eq (dsz ksz : Nat) (hd : dsz + 1 < 2^64) (hk : 1 ≤ ksz) :
+    GenGal.switch_key_indices dsz ksz = .ok ((List.range (dsz + 1)).map (fun i => if i = dsz then ksz - 1 else i)) := by
+  unfold GenGal.switch_key_indices
+  have h1 : ckAdd dsz 1 = .ok (dsz + 1) := by unfold ckAdd; rw [if_pos (by rw [gx_B64]; exact hd)]
+  have h2 : ckSub ksz 1 = .ok (ksz - 1) := by unfold ckSub; rw [if_pos hk]
+  simp only [h1, gy_ok_bind, Nat.sub_zero]
+  rw [gal_map_fold (fun i => if i = dsz then ksz - 1 else i) _ (by
+    intro st v
+    by_cases hv : v = dsz
+    · simp only [hv, if_true, h2, gy_ok_bind, gy_pure_eq]
+    · simp only [hv, if_false, gy_ok_bind, gy_pure_eq])]
+  simp [List.range_eq_range', gy_pure_eq]
+
 /-! ### public entry points: scheme gates -/
 theorem gal_rotate_rows_gate (s : Scheme) :
     GenGal.rotate_rows_inplace s = if s = .bfv ∨ s = .bgv then .ok [1] else .error .refused := by
